@@ -7,6 +7,8 @@ import (
 	"fmt"
 	"math"
 	"math/rand"
+	"strconv"
+	"strings"
 	"time"
 
 	"github.com/evolbioinfo/goalign/distance/dna"
@@ -97,6 +99,31 @@ func weightsFamily(env *Env) error {
 				ev.Kind = "ok"
 			})
 			emit(ev)
+		}
+		// the same through `goalign build weightboot` (three replicates: one line each)
+		if cliSampled(i) {
+			var fa strings.Builder
+			fmt.Fprintf(&fa, ">a\n%s\n>b\n%s\n", string(i2b(rows[0])), string(i2b(rows[1])))
+			seed := rng.Intn(1 << 30)
+			out, errs, rc := runGoalign([]byte(fa.String()), "build", "weightboot", "-n", "3", "--seed", fmt.Sprint(seed))
+			lines := strings.Split(strings.TrimRight(out, "\n"), "\n")
+			if rc != 0 || len(lines) != 3 {
+				ev := blank("weightscli")
+				ev.L, ev.Seed, ev.Kind, ev.Msg = L, seed, "err", fmt.Sprintf("exit %d, %d lines: %s", rc, len(lines), strings.SplitN(errs, "\n", 2)[0])
+				emit(ev)
+			} else {
+				for _, l := range lines {
+					ev := blank("weightscli")
+					ev.L, ev.Seed, ev.Kind, ev.W = L, seed, "ok", strings.Split(l, "\t")
+					for _, f := range ev.W {
+						if _, err := strconv.ParseFloat(f, 64); err != nil {
+							ev.What, ev.W = "malformed field "+f, []string{} // not a number: the line holds no weights
+							break
+						}
+					}
+					emit(ev)
+				}
+			}
 		}
 		// Dirichlet samples
 		k := []int{0, 1, 2, 3, 4, 10}[rng.Intn(6)]
